@@ -208,6 +208,15 @@ let handle cmd args =
       (match crash_violation tr (nat_of_int (int_of_string ver)) with
        | None -> "OK"
        | Some (j, k) -> "BAD " ^ string_of_int (int_of_nat j) ^ " " ^ string_of_int (int_of_nat k))
+  | "inspect", [loc; prefix; key; v; ms] ->
+      (* expr_inspect for one entry: lines as hex, comma separated ("-" = no line) *)
+      let mbw = if loc = "utf8" then mbw_utf8 else mbw_c in
+      let pairs = if ms = "-" then [] else List.map (fun p ->
+        match String.split_on_char ',' p with
+        | [b; e] -> (nat_of_int (int_of_string b), nat_of_int (int_of_string e))
+        | _ -> failwith "pair") (String.split_on_char ';' ms) in
+      let lines = inspect_entry mbw (unhex prefix) (unhex key) (cview (unhex v)) pairs in
+      if lines = [] then "-" else String.concat "," (List.map (fun l -> if l = [] then "e" else hex l) lines)
   | "scan", [str; bnd] ->
       (* index-level scanners (ScanDefs) against the list-level models on one C string *)
       let s = cview (unhex str) and b = cview (unhex bnd) in
